@@ -1,7 +1,7 @@
 (* C10 — nearest-centre assignment and per-trajectory bookkeeping are exact.
    gen_partition_indices / gen_partition_list are regenerated from enspara/ra/ra.py on every run. *)
 From Coq Require Import List ZArith QArith.
-From EV Require Import PySlice PartitionBase PartitionGen Cluster ClusterBase Partition PartitionProofs KcGuardBase ClusterGen ClusterSkel ClusterGenProofs PartitionSkel UtilGenProofs.
+From EV Require Import PySlice PartitionBase PartitionGen Cluster ClusterBase Partition PartitionProofs KcGuardBase ClusterGen ClusterSkel ClusterGenProofs PartitionSkel UtilGenProofs PartitionAddress.
 Import ListNotations.
 
 (* every frame gets a centre at minimal distance and exactly that distance; ties go to the first
@@ -91,6 +91,38 @@ Print Assumptions c10_source_batches_is_model.
 Theorem c10_source_square_test_is_model : forall lens, gen_square lens = square lens.
 Proof. exact gen_square_is_model. Qed.
 Print Assumptions c10_source_square_test_is_model.
+
+(* ---- partition_list and partition_indices together: split the flat array l by the lengths and
+   convert a flat index i; the (trajectory, frame) pair reads, in the split pieces, exactly l[i]
+   (centres on the first/last frame of a trajectory and length-1 trajectories included) *)
+Theorem c10_pair_addresses_same_value_in_split : forall (A : Type) (d : A) (l : list A) lens i,
+  nonneg lens -> zsum lens = Z.of_nat (length l) -> (0 <= i < zsum lens)%Z ->
+  exists rows t f, gen_partition_list l lens = Some rows /\
+    gen_partition_indices [i] lens = [(Z.of_nat t, f)] /\
+    (t < length rows)%nat /\ (0 <= f < Z.of_nat (length (nth t rows [])))%Z /\
+    nth (Z.to_nat f) (nth t rows []) d = nth (Z.to_nat i) l d.
+Proof. exact @partition_pair_addresses_same_value. Qed.
+Print Assumptions c10_pair_addresses_same_value_in_split.
+
+(* the output is the only list of pieces with those lengths whose concatenation is the input:
+   nothing about the result is left unspecified *)
+Theorem c10_partition_list_is_the_only_split : forall (A : Type) (l : list A) lens rows rows',
+  gen_partition_list l lens = Some rows -> concat rows' = l -> zlens rows' = lens -> nonneg lens -> rows' = rows.
+Proof. exact @partition_list_is_the_only_split. Qed.
+Print Assumptions c10_partition_list_is_the_only_split.
+
+(* labels and distances split by the same lengths have the same shape, row by row *)
+Theorem c10_partition_shapes_agree : forall (A B : Type) (asg : list A) (dst : list B) lens ra rd,
+  gen_partition_list asg lens = Some ra -> gen_partition_list dst lens = Some rd -> nonneg lens ->
+  map (@length A) ra = map (@length B) rd.
+Proof. exact @partition_shapes_agree. Qed.
+Print Assumptions c10_partition_shapes_agree.
+
+Example c10_address_example :
+  gen_partition_list [10; 11; 12; 13; 14; 15]%Z [2; 1; 3]%Z = Some [[10; 11]; [12]; [13; 14; 15]]%Z /\
+  gen_partition_indices [2]%Z [2; 1; 3]%Z = [(1, 0)]%Z /\ nth 0 (nth 1 [[10; 11]; [12]; [13; 14; 15]]%Z []) 0%Z = 12%Z.
+Proof. vm_compute. repeat split; reflexivity. Qed.
+Print Assumptions c10_address_example.
 
 Example c10_example :
   gen_partition_indices [0; 2; 3; 3; 9; 4]%Z [3; 1; 4; 2]%Z = [(0, 0); (0, 2); (1, 0); (1, 0); (3, 1); (2, 0)]%Z /\
